@@ -137,7 +137,7 @@ def scan_assumptions(text):
 
 REPLAY_BIN = os.path.join(WORK, 'replay-target', 'debug', 'cachelito-replay')
 UNIT_FLAVOUR = {'global_cache': 'global', 'thread_local_cache': 'thread', 'async_cache': 'async', 'scores': 'global', 'utils': 'global'}
-DYNAMIC_UNITS = ('scores', 'utils', 'global_cache', 'thread_local_cache', 'async_cache', 'wrappers_global', 'wrappers_thread', 'wrappers_async', 'keys')
+DYNAMIC_UNITS = ('registry', 'scores', 'utils', 'global_cache', 'thread_local_cache', 'async_cache', 'wrappers_global', 'wrappers_thread', 'wrappers_async', 'keys')
 
 
 def build_replay():
@@ -155,7 +155,7 @@ def witness_search(prop, unit_names, tier, seed, only_prop=True):
     flavours = sorted(set(UNIT_FLAVOUR[u] for u in unit_names if u in UNIT_FLAVOUR))
     iters = 200 if tier == 'quick' else 3000
     stats = []
-    if any(u.startswith('wrappers') or u == 'keys' for u in unit_names):
+    if any(u.startswith('wrappers') or u in ('keys', 'registry') for u in unit_names):
         # macro level: decorated functions driven through the real macros against uncached twins / counters / predicate logs
         out = os.path.join(WORK, 'replays', '%s.macro.witness' % prop)
         # C01 ('never a value stored for other arguments') is also witnessed by a C02 collision
@@ -174,7 +174,7 @@ def witness_search(prop, unit_names, tier, seed, only_prop=True):
         except subprocess.TimeoutExpired:
             stats.append('macro: timed out')
         if not flavours:
-            return dict(none=True, stats=stats, bound='16 macro-level scenarios (adversarial argument tuples, scripted Ok/Err, predicate scripts, manual polling) on functions decorated with the real macros')
+            return dict(none=True, stats=stats, bound='20 macro-level scenarios (adversarial argument tuples, scripted Ok/Err, predicate scripts, manual polling) on functions decorated with the real macros')
     for fl in flavours:
         out = os.path.join(WORK, 'replays', '%s.%s.history' % (prop, fl))
         cmd = [REPLAY_BIN, '--search', '--flavour', fl, '--iters', str(iters), '--seed', str(seed or 1), '--out', out]
@@ -238,6 +238,41 @@ def lock_check(kinds, prop):
         if len(obs) == 0:
             res['undecided'].append('lock analysis produced zero obligations')
         res['notes'].append('%d %s obligations generated from the original source text and the real macro expansions' % (len(obs), '/'.join(kinds)))
+        return res
+    return run
+
+
+def kani_float_axioms(prop):
+    """Thorough tier: the float axioms CBMC can decide are validated bit-precisely on real f64 operations by loop-free
+    Kani harnesses over full-domain symbolic inputs (complete, not bounded). A failing harness means an unsound AXIOM of
+    the machinery (undecided), never a violation of the property."""
+    def run(tier):
+        res = dict(obligations={}, violations=[], undecided=[], functions=[], checker_cmds=[], trusted={}, notes=[])
+        if tier != 'thorough':
+            res['notes'].append('float axioms ax_conv / ax_mul(sign, zero) / ax_age_factor / ax_lt_* / ax_zero_* / ax_consts are validated by Kani in the thorough tier; assumed in the quick tier')
+            return res
+        env = dict(os.environ, CARGO_NET_OFFLINE='true', CARGO_TARGET_DIR=os.path.join(WORK, 'kani-target'))
+        cmd = ['cargo', 'kani']
+        res['checker_cmds'].append('cd /verif/kani && cargo kani  (kani 0.68 / cbmc)')
+        try:
+            p = subprocess.run(cmd, cwd=os.path.join(VERIF, 'kani'), env=env, capture_output=True, text=True, timeout=1800)
+        except (subprocess.TimeoutExpired, OSError) as e:
+            res['undecided'].append('kani float-axiom harnesses did not run: %r' % (e,))
+            return res
+        cur = None
+        for line in p.stdout.splitlines():
+            m = re.match(r'Checking harness (\S+?)\.\.\.', line)
+            if m:
+                cur = m.group(1)
+            m2 = re.match(r'VERIFICATION:- (\w+)', line)
+            if m2 and cur:
+                name = 'kani/%s' % cur
+                res['obligations'][name] = 'float axiom validated bit-precisely (kani-cbmc, loop-free full-domain harness)'
+                if m2.group(1) != 'SUCCESSFUL':
+                    res['undecided'].append('float axiom harness %s: %s (an axiom of prelude_float.rs is unsound)' % (cur, m2.group(1)))
+                cur = None
+        if not res['obligations']:
+            res['undecided'].append('kani produced no harness results: %s' % p.stderr[-300:])
         return res
     return run
 
